@@ -25,8 +25,11 @@ def prepare(run, cid, tier):
         base_env = dict(env)
         base_env.update({"VERIF_TIER": tier, "VERIF_ROOT": O, "VERIF_KNOWN": os.path.join(V, "known_findings.json"), "VERIF_REPO": R})
         base_env.setdefault("VERIF_SEED", "0")
+        base_env["VERIF_KEEP_REPLAYS"] = "1"  # several processes report into one replay directory; it is cleared here
         if replay:
             base_env["VERIF_REPLAY"] = os.path.abspath(replay)
+        else:
+            subprocess.run(["rm", "-rf", os.path.join(O, "replays", cid)])
         outputs, rcs = [], []
         # 1. plain binary
         binp, bt = run.build(cid)
